@@ -3,6 +3,8 @@
 package diags
 
 import (
+	"gopkg.in/yaml.v3"
+
 	"github.com/cloudflare/pint/internal/output"
 )
 
@@ -126,4 +128,55 @@ func VerifHarness_Expand() {
 	verifReach("end")
 	verifAssert(len(exp) == lr.Last-lr.First+1, "Expand lists every line of the range")
 	verifAssert(verifAnd(exp[0] == lr.First, exp[len(exp)-1] == lr.Last), "Expand starts and ends at the range's ends")
+}
+
+// ---- (a) NewPositionRange on a symbolic scalar node under the node invariant J ----
+//
+// J (what yaml.v3 hands out, DESIGN App. C): 1 <= Line <= len(lines); Column >= 1 and at most one past the end of its
+// line; minColumn >= 1 (callers pass 1 or key.Column+2).
+// Two ways of choosing the node's value (param mode):
+//   mode 0 "plain":  the value is the text of its line from Column on (n bytes, a plain scalar: first byte not a space)
+//   mode 1 "free":   the value is any n bytes — a quoted scalar with escapes decodes to text that the source does not
+//                    spell ("\x41" is A)
+// Result must satisfy I1/I2: not empty, lines inside the file, 1 <= FirstColumn <= LastColumn.
+
+func VerifHarness_NewPositionRange() {
+	nlines, ll := verifParam("nlines"), verifParam("linelen")
+	var lines []string
+	for i := 0; i < nlines; i++ {
+		lines = append(lines, verifLine("line"+verifItoa(i), ll))
+	}
+	line, col, minCol, n := verifParam("line"), verifParam("col"), verifParam("mincol"), verifParam("vlen")
+	var node yaml.Node
+	node.Kind = yaml.ScalarNode
+	node.Line, node.Column = line, col
+	spelled := true
+	if verifParam("mode") == 0 {
+		node.Value = lines[line-1][col-1 : col-1+n]
+		verifAssume(node.Value[0] != ' ')
+	} else {
+		node.Value = verifBytes("value", n)
+		for i := 0; i < n; i++ {
+			verifAssume(verifAnd(node.Value[i] != '\n', node.Value[i] < 0x80))
+			if col-1+i < ll {
+				spelled = verifAnd(spelled, lines[line-1][col-1+i] == node.Value[i])
+			} else {
+				spelled = false
+			}
+		}
+		// genuine defect (notes/C02.md): a value that the source text does not spell at the node's position (any
+		// double-quoted scalar with an escape sequence) can give an EMPTY position list; every diagnostic built on it
+		// then violates I1 and diags.InjectDiagnostics panics with "slices.Max: empty list"
+		verifSig("C02-position-empty-value-not-in-source", !spelled)
+	}
+	got := NewPositionRange(lines, &node, minCol)
+	verifReach("end")
+	verifAssert(len(got) > 0, "I1: the position list of a node is not empty")
+	for _, pr := range got {
+		verifAssert(verifAnd(pr.Line >= 1, pr.Line <= nlines), "I2: position lines are lines of the file")
+		verifAssert(verifAnd(pr.FirstColumn >= 1, pr.FirstColumn <= pr.LastColumn), "I2: position columns are ordered and 1-based")
+	}
+	if verifParam("mode") == 0 {
+		verifAssert(verifAnd(got[0].Line == line, got[0].FirstColumn == col), "a plain scalar's positions start at the node")
+	}
 }
